@@ -112,7 +112,7 @@ def typed_values(ctx):
 def run(ctx):
     ev = ctx.ev
     rng = random.Random(ctx.seed)
-    jobs, ndocs = build_jobs(ctx, rng, two_block_sample=700)
+    jobs, ndocs = build_jobs(ctx, rng, two_block_sample=1400)
     jobs = [j for j in jobs if j["fmt"] in TABLE_FORMATS]
     ctx.log(f"{ndocs} documents, {len(jobs)} (document, format) extractions")
     traces = run_suite(ctx, jobs, _events, "tables")
